@@ -8,15 +8,15 @@ Rec == ndJsonDeserialize(IOEnv.TRACE)
 VARIABLE l
 Init == l = 1
 
-TokList(r) == [i \in 1..Len(r.obs.toks) |-> [k |-> r.obs.toks[i].k, t |-> r.obs.toks[i].t]]
+TokList(r) == [i \in 1..Len(r.obs.r.toks) |-> [k |-> r.obs.r.toks[i].k, t |-> r.obs.r.toks[i].t]]
 
 Verdict(r) ==
   LET toks == TokList(r)
       keys == AbsReasons(r.s, toks)
       model == Tokenize(r.s, r.al)
       exact == /\ toks = model
-               /\ \A i \in 1..Len(r.obs.toks) :
-                     r.obs.toks[i].k = "Quoted" => r.obs.toks[i].hu /\ r.obs.toks[i].u = Unquote(r.obs.toks[i].t)
+               /\ \A i \in 1..Len(r.obs.r.toks) :
+                     r.obs.r.toks[i].k = "Quoted" => r.obs.r.toks[i].hu /\ r.obs.r.toks[i].u = Unquote(r.obs.r.toks[i].t)
   IN [id |-> r.id, keys |-> keys, exact |-> exact, nt |-> HasQuoteOrMark(r.s)]
 
 Step == /\ l <= Len(Rec)
